@@ -6,6 +6,7 @@
 EXTENDS DetermM, Json, SequencesExt
 CONSTANT Subs0
 
+Absent == 9   \* weight value standing for "sub-cluster not in the predecessor configuration"
 GslbCfgs == {w \in [Subs0 -> 0..2] : \E s \in Subs0 : w[s] > 0}
 
 VARIABLE g
@@ -18,7 +19,13 @@ Why(c) == (IF AmbiguousHost(c) THEN {"host-under-two-tags"} ELSE {})
           \cup (IF AmbiguousTag(c) THEN {"tag-under-two-products"} ELSE {})
           \cup (IF AmbiguousVip(c) THEN {"vip-under-two-products"} ELSE {})
 Case(x) ==
-  IF x.kind = "gslb" THEN [kind |-> "gslb", w |-> x.c, e |-> "function"]
+  IF x.kind = "gslb" THEN [kind |-> "gslb", w |-> x.c, e |-> "function",
+                           \* "independent of ... reload count": besides a fresh load the same files are reached by a
+                           \* reload from each predecessor table; Absent marks a sub-cluster the predecessor lacks,
+                           \* the other predecessor has every weight changed (all sub-clusters kept)
+                           prevs |-> SetToSeq({[s \in Subs0 |-> IF s = a THEN Absent ELSE x.c[s]] :
+                                                a \in {a \in Subs0 : \E s \in Subs0 \ {a} : x.c[s] > 0}}
+                                              \cup {[s \in Subs0 |-> 1]})]
   ELSE LET c == x.c IN
        [kind  |-> x.kind,
         hosts |-> [t \in DOMAIN c.hosts |-> SetToSeq(c.hosts[t])],
